@@ -81,6 +81,9 @@ def run(sid, props):
                 print("   failed:", out[p]["failed_obligations"])
     finally:
         sh("git -C /repo checkout -- .")
+        # regenerate the evidence files from the unchanged tree (they must never come from a seeded run)
+        for p in props:
+            sh("./check %s --tier quick" % p, cwd=V)
     meta.setdefault("detected_by", {}).update(out)
     json.dump(meta, open(os.path.join(d, "meta.json"), "w"), indent=1)
 
